@@ -158,6 +158,10 @@ def run(tier, seed, lean):
     v, n = threads(tier, rng)
     violations += v
     evals += n
+    # members of one extends-family share their runtime: calls on one member do not show in another
+    v, n = family_histories(tier, seed, rng)
+    violations += v
+    evals += n
     # modules compiled later (extending this one, or reusing its name) do not alter an existing module
     v, n = later_grammars(seed)
     violations += v
@@ -208,6 +212,49 @@ def threads(tier, rng):
                     break
     finally:
         sys.setswitchinterval(old)
+    return bad, n
+
+
+# a family of modules that share one runtime (a derived module imports it from its parent): the members differ in what
+# they ignore and in what they override, and use equal literals as template arguments
+FAMILY = [
+    'grammar {p}a\nstart = Twice("ab") | Item+\nTwice(x) = [x, x]\nItem = Wrap("(", ")") | /[a-z]/\nWrap(o, c) = o >> /[a-z]*/ << c\n',
+    'grammar {p}b extends {p}a\nignore / +/\noverride start = Twice("ab") | Item+\n',
+    'grammar {p}c extends {p}b\noverride Item = Wrap("[", "]") | Wrap("(", ")") |> `lambda s: s.upper()` | super.Item\n',
+]
+FAMILY_TEXTS = ['abab', 'ab ab', '(ab)x', '[ab] (c)', 'a b', '(a)(b)', 'ab', '[x]y', '( a)', '']
+
+
+def family_histories(tier, seed, rng):
+    """calls on the members of one family in random order: each outcome equals that of the same call made alone on a
+    freshly compiled family"""
+    bad = []
+    n = 0
+    refs = {}
+
+    def family(prefix):
+        return [realrun.compile_grammar(t.replace('{p}', prefix))[0] for t in FAMILY]
+
+    def ref(mi, entry, text, full):
+        key = (mi, entry, text, full)
+        if key not in refs:
+            refs[key] = call(family(f'c18f{seed}_r{len(refs)}_')[mi], entry, text, 0, full)
+        return refs[key]
+
+    for h in range(10 if tier == 'quick' else 80):
+        mods = family(f'c18f{seed}_h{h}_')
+        history = [(rng.randrange(3), rng.choice(['__module__', '__module__', 'Item']), rng.choice(FAMILY_TEXTS), rng.random() < 0.7)
+                   for _ in range(rng.randint(3, 8))]
+        for i, (mi, entry, text, full) in enumerate(history):
+            g = call(mods[mi], entry, ''.join(list(text)), 0, full)
+            r = ref(mi, entry, text, full)
+            n += 1
+            if g != r:
+                bad.append({'key': f'family|{seed}|{h}|{i}', 'sig': 'family-history', 'kind': 'spec', 'seed': seed,
+                            'history': [list(x) for x in history[:i + 1]],
+                            'what': f'call {i} of a history over a family of three modules ({"abc"[mi]}.{entry}.parse({text!r}, 0, {full})) gave {str(g)[:120]}, '
+                                    f'alone on a freshly compiled family it gives {str(r)[:120]}; earlier calls: {[("abc"[x[0]], x[2]) for x in history[:i]][-4:]}'})
+                break
     return bad, n
 
 
